@@ -917,11 +917,40 @@ func isNilConst(v ssa.Value) bool {
 	return ok && c.Value == nil
 }
 
-// returns lists the Return instructions of fn.
+// res returns the i-th result of a return instruction, looking through the result cells that
+// go/ssa introduces in functions with defers (the value stored to the cell in the returning block).
+func (p *Program) res(ret *ssa.Return, i int) ssa.Value {
+	v := ret.Results[i]
+	u, ok := v.(*ssa.UnOp)
+	if !ok || u.Op != token.MUL {
+		return v
+	}
+	a, ok := u.X.(*ssa.Alloc)
+	if !ok {
+		return v
+	}
+	instrs := ret.Block().Instrs
+	for k := len(instrs) - 1; k >= 0; k-- {
+		if st, ok := instrs[k].(*ssa.Store); ok && st.Addr == ssa.Value(a) {
+			return st.Val
+		}
+	}
+	return v
+}
+
+// panicType returns the dynamic type of a panic operand.
+func panicType(pn *ssa.Panic) types.Type {
+	if mi, ok := pn.X.(*ssa.MakeInterface); ok {
+		return mi.X.Type()
+	}
+	return pn.X.Type()
+}
+
+// returnsOf lists the Return instructions of fn (excluding the synthetic recover block).
 func returnsOf(fn *ssa.Function) []*ssa.Return {
 	var out []*ssa.Return
 	for _, b := range fn.Blocks {
-		if len(b.Instrs) == 0 {
+		if len(b.Instrs) == 0 || b == fn.Recover {
 			continue
 		}
 		if r, ok := b.Instrs[len(b.Instrs)-1].(*ssa.Return); ok {
